@@ -152,28 +152,41 @@ theorem hardwired_operators :
 
       ∀ p ∈ prims, stepperOp (atomOfInt p.2) = atomOfInt p.2
 
-  FALSE as the code stands: `translate_head` reads the operator atom as a primitive NAME first,
-  and the opcodes 61 (`%`) and 62 (`keccak256`) are the ASCII codes of the names "=" and ">".
+  TRUE since fix: 5f6df3d (`translate_head` no longer re-reads an integer that is a primitive's
+  opcode as a primitive NAME; before, the opcodes 61 (`%`) and 62 (`keccak256`) - the ASCII codes of
+  the names "=" and ">" - were run as 9 and 21).
 -/
 
-/-- witness: the stepping evaluator runs opcode 61 (`%`) as 9 (`=`) and 62 (`keccak256`) as 21 (`>`). -/
-theorem stepper_counterexample :
-    primAtom [37] = some [61] ∧ stepperOp [61] = [9] ∧
-    primAtom [107, 101, 99, 99, 97, 107, 50, 53, 54] = some [62] ∧ stepperOp [62] = [21] := by
+/-- (full) every primitive's operator atom is run by the stepping evaluator as the opcode the tables
+    give it — and that opcode is implemented by the stepper's dialect
+    (exhaustive over the regenerated `prims()`). -/
+theorem stepper_faithful :
+    ∀ p ∈ prims, stepperOp (atomOfInt p.2) = atomOfInt p.2 ∧
+      implemented stepperVersion (stepperOp (atomOfInt p.2)) = true := by
   decide +kernel
 
-/-- exactly these two primitives are affected (exhaustive over the regenerated `prims()`). -/
+/-- the former witnesses: opcode 61 (`%`, spelled like the name "=") stays 61, opcode 62 (`keccak256`,
+    spelled like ">") stays 62, although both atoms ARE primitive names. -/
+theorem stepper_repaired :
+    primAtom [37] = some [61] ∧ primMap [61] = some 9 ∧ stepperOp [61] = [61] ∧
+    primAtom [107, 101, 99, 99, 97, 107, 50, 53, 54] = some [62] ∧ primMap [62] = some 21 ∧ stepperOp [62] = [62] := by
+  decide +kernel
+
+/-- no primitive is affected any more (exhaustive over the regenerated `prims()`). -/
 theorem stepper_collisions :
-    prims.filter (fun p => stepperOp (atomOfInt p.2) != atomOfInt p.2) =
-      [([37], 61), ([107, 101, 99, 99, 97, 107, 50, 53, 54], 62)] := by
+    prims.filter (fun p => stepperOp (atomOfInt p.2) != atomOfInt p.2) = [] := by
   decide +kernel
 
-/-- (partial) every primitive whose operator atom does not itself spell a primitive name is run by
-    the stepping evaluator as the opcode the tables give it — and that opcode is implemented. -/
-theorem stepper_faithful_partial (n a : List Nat) (h : primAtom n = some a) (hname : primMap a = none) :
-    stepperOp a = a ∧ implemented stepperVersion (stepperOp a) = true := by
-  have h1 : stepperOp a = a := by unfold stepperOp; rw [hname]
-  exact ⟨h1, by rw [h1]; exact (prims_implemented n a h).1⟩
+/-- independent of the table's contents: an operator atom that is some primitive's opcode, or that is
+    no primitive name, is run as itself. -/
+theorem stepper_opcode_fixed (a : List Nat) (h : isPrimOpcode a = true ∨ primMap a = none) : stepperOp a = a := by
+  unfold stepperOp
+  rcases h with h | h
+  · cases primMap a <;> simp [h]
+  · rw [h]
+
+example : stepperOp [61] = [61] := stepper_opcode_fixed [61] (.inl (by decide +kernel))
+example : stepperOp [200] = [200] := stepper_opcode_fixed [200] (.inr (by decide +kernel))
 
 /-
   The disassembler.  FULL STATEMENT: ∀ v n a, toAtom v n = some a → disasmName v a = some n.
